@@ -22,12 +22,21 @@ def _score_objects(draw, max_size=20, min_size=1):
     s = draw(gen.score_sets(min_pos=min_size, min_neg=min_size, max_size=max_size,
                             modes=("grid", "grid", "dyadic", "distinct", "distinct"), max_easy=30))
     sc, ec = draw(gen.CONFIG)
-    return dict(pos=s["pos"], neg=s["neg"], ep=s["ep"], en=s["en"], sc=sc, ec=ec, mode=s["mode"])
+    packed = None
+    if draw(st.integers(0, 7)) == 0:
+        # scores that float64 cannot tell apart: long doubles 2^-60 apart, or 64-bit integers beyond 2^53
+        packed = draw(st.sampled_from(["longdouble", "int64"]))
+        n, m = len(s["pos"]), len(s["neg"])
+        ks = draw(st.lists(st.integers(-30, 30), min_size=n + m, max_size=n + m))
+        s = dict(s, pos=[float(k) for k in ks[:n]], neg=[float(k) for k in ks[n:]])
+    return dict(pos=s["pos"], neg=s["neg"], ep=s["ep"], en=s["en"], sc=sc, ec=ec, mode=s["mode"], packed=packed)
 
 
 @st.composite
-def _support(draw, vals, spanning=False):
-    if spanning:
+def _support(draw, vals, spanning=False, packed=False):
+    if packed:  # thresholds cannot be written down as float64 numbers there
+        kind = draw(st.sampled_from(["nb_points", "nothing"] if spanning else ["fnr", "fpr", "nb_points", "nothing", "fnr+fpr"]))
+    elif spanning:
         kind = draw(st.sampled_from(["nb_points", "nothing"]))
     else:
         kind = draw(st.sampled_from(["fnr", "fpr", "thresholds", "nb_points", "nothing", "fnr+fpr"]))
@@ -52,6 +61,13 @@ def _support(draw, vals, spanning=False):
 def _mk(o):
     from score_analysis import Scores
 
+    if o.get("packed") == "longdouble":
+        one, step = np.longdouble(1), np.longdouble(2) ** -60
+        return Scores(one + np.asarray(o["pos"], dtype=np.longdouble) * step, one + np.asarray(o["neg"], dtype=np.longdouble) * step,
+                      nb_easy_pos=o["ep"], nb_easy_neg=o["en"], score_class=o["sc"], equal_class=o["ec"])
+    if o.get("packed") == "int64":
+        return Scores(2**53 + np.asarray(o["pos"], dtype=np.int64), 2**53 + np.asarray(o["neg"], dtype=np.int64),
+                      nb_easy_pos=o["ep"], nb_easy_neg=o["en"], score_class=o["sc"], equal_class=o["ec"])
     return Scores(np.asarray(o["pos"], dtype=float), np.asarray(o["neg"], dtype=float),
                   nb_easy_pos=o["ep"], nb_easy_neg=o["en"], score_class=o["sc"], equal_class=o["ec"])
 
@@ -78,7 +94,7 @@ def _band_views(c, ctx):
 
 
 def wellformed(c, s, ctx, unit_interval):
-    t = np.asarray(c.thresholds, dtype=float)
+    t = np.asarray(c.thresholds)  # as handed out (long-double / integer scores keep their type)
     n = len(t)
     require(len(c.fnr) == n and len(c.fpr) == n, "band:lengths", ctx)
     require(np.array_equal(np.asarray(c.fnr), np.asarray(s.fnr(t)), equal_nan=True)
@@ -102,7 +118,7 @@ def wellformed(c, s, ctx, unit_interval):
 @st.composite
 def _real_cases(draw):
     o = draw(_score_objects())
-    sup = draw(_support(o["pos"] + o["neg"]))
+    sup = draw(_support(o["pos"] + o["neg"], packed=bool(o.get("packed"))))
     method, strat = draw(st.sampled_from(BUILTIN))
     ci = draw(st.sampled_from(CI_METHODS))
     alpha = draw(st.one_of(st.floats(min_value=0.01, max_value=0.5), st.floats(min_value=0.5, max_value=0.99)))
@@ -163,9 +179,10 @@ def check_real(case):
 @st.composite
 def _ident_cases(draw):
     o = draw(_score_objects(max_size=12))
-    sup = draw(_support(o["pos"] + o["neg"]))
+    sup = draw(_support(o["pos"] + o["neg"], packed=bool(o.get("packed"))))
     return dict(o=o, sup=sup, ci=draw(st.sampled_from(CI_METHODS)),
                 alpha=draw(st.sampled_from([0.01, 0.05, 0.3, 0.5, 0.7, 0.95])), nb=draw(st.integers(2, 4)),
+                alpha_kind=draw(st.sampled_from(["py", "py", "float32", "float16", "float64"])),
                 x_axis=draw(st.sampled_from(["fpr", "fnr", "tpr", "tnr"])))
 
 
@@ -191,9 +208,14 @@ def check_identity(case):
     o = case["o"]
     s = _mk(o)
     alpha = case["alpha"]
+    alpha_arg = alpha
+    if case.get("alpha_kind", "py") != "py":
+        # a significance level held as a NumPy scalar of some precision: the level meant is the value held
+        alpha_arg = np.dtype(case["alpha_kind"]).type(alpha)
+        alpha = float(alpha_arg)
     cfg = BootstrapConfig(nb_samples=case["nb"], bootstrap_method=case["ci"], sampling_method=lambda x: x)
-    ctx = f"roc_with_ci identity sampler ci={case['ci']} alpha={alpha} support={case['sup']} object={o}"
-    c = roc_with_ci(s, alpha=alpha, config=cfg, x_axis=case["x_axis"], **_kwargs(case["sup"]))
+    ctx = f"roc_with_ci identity sampler ci={case['ci']} alpha={alpha_arg!r} support={case['sup']} object={o}"
+    c = roc_with_ci(s, alpha=alpha_arg, config=cfg, x_axis=case["x_axis"], **_kwargs(case["sup"]))
     wellformed(c, s, ctx, unit_interval=True)
     fnr, fpr = np.asarray(c.fnr, dtype=float), np.asarray(c.fpr, dtype=float)
     v_fnr = np.asarray(s.fnr(s.threshold_at_fpr(fpr)), dtype=float)
@@ -246,7 +268,7 @@ def _exp_cases(draw):
         big = [k / 2 for k in draw(st.lists(st.integers(-20, 20), min_size=lo_big, max_size=lo_big + 43))]
         o = dict(o, pos=big if shape == "few-neg" else small, neg=small if shape == "few-neg" else big,
                  mode="grid")
-    sup = draw(_support(o["pos"] + o["neg"], spanning=(fn == "fixed_width_band_ci")))
+    sup = draw(_support(o["pos"] + o["neg"], spanning=(fn == "fixed_width_band_ci"), packed=bool(o.get("packed"))))
     method, strat = draw(st.sampled_from(BUILTIN))
     return dict(fn=fn, o=o, sup=sup, method=method, strat=strat, ci=draw(st.sampled_from(CI_METHODS)),
                 alpha=draw(st.one_of(st.floats(min_value=0.01, max_value=0.5),
